@@ -858,6 +858,10 @@ bool XMLURL::conglomerateWithBase(const XMLURL& baseURL, bool useExceptions)
         fUser = XMLString::replicate(baseURL.fUser, fMemoryManager);
         fPassword = XMLString::replicate(baseURL.fPassword, fMemoryManager);
         fPath = XMLString::replicate(baseURL.fPath, fMemoryManager);
+
+        // A fragment-only reference is the base document: keep its query
+        if (!fQuery)
+            fQuery = XMLString::replicate(baseURL.fQuery, fMemoryManager);
         return true;
     }
 
